@@ -595,6 +595,12 @@ impl Property for C08Prop {
                 format!("f := () -> int {{ {la} {op} {lb}; return 7; }}; f()"),
                 format!("f := (a: {ty}, b: {ty}) -> int {{ a {op} b; return 7; }}; f({la}, {lb})"),
                 format!("f := (a: {ty}) -> int {{ if true {{ a {op} {lb}; }}; return 7; }}; f({la})"),
+                // ... and as an element that is not the one taken out of a compound written in place
+                format!("f := (a: {ty}, b: {ty}) -> int {{ return (a {op} b, 7).1; }}; f({la}, {lb})"),
+                format!("f := (a: {ty}, b: {ty}) -> int {{ return (7, a {op} b).0; }}; f({la}, {lb})"),
+                format!("f := (a: {ty}, b: {ty}) -> int {{ return struct{{u := a {op} b, v := 7}}.v; }}; f({la}, {lb})"),
+                format!("f := (a: {ty}, b: {ty}) -> int {{ return [(a {op} b, 7), (a {op} b, 7)][1].1; }}; f({la}, {lb})"),
+                format!("f := (b: {ty}) -> int {{ return ((0, {la} {op} b), 7).1; }}; f({lb})"),
             ] {
                 stats.eval();
                 let o = run::run_text(&text, false);
@@ -769,6 +775,20 @@ impl Property for C08Prop {
                     format!("C08:{kind}:{op}:compound-cell"),
                     format!("after `{program}` the cell holds {}, expected {}", got.short(), want.show()),
                 );
+            }
+            // the compound assignment as an element that is not the one taken out of a tuple written in
+            // place: it is performed all the same (its value is the content read right after it)
+            if let Some((decl, stmt)) = program.split_once("; ") {
+                for text in [format!("{decl}; r := ({stmt}, *c).1; r"), format!("{decl}; f := () -> any {{ return (0, {stmt}, *c).2; }}; f()")] {
+                    stats.eval();
+                    let o = run::run_text(&text, false);
+                    if !outcome_matches(&o, &expected, false) {
+                        return fail(
+                            format!("C08:{kind}:{op}:compound-in-tuple"),
+                            format!("`{text}`: expected {}, got {}", expected.show(), o.short()),
+                        );
+                    }
+                }
             }
         }
         Verdict::Pass
